@@ -507,26 +507,43 @@ def connect (s : St) : St × R Unit :=
     ({ s with sock := some { idx := i, connected := true, isOpen := true, dead := false }, evs := evs, arr := s.now },
      .ok ())
 
-def setSock (c : Cfg) (s : St) (rc : Bool) : St × R Unit :=
-  -- `if reconnecting and self.sock: self.sock.shutdown()`
-  let s := if rc then (match s.sock with | some _ => closeTransport s | none => s) else s
-  let (s, r) := connect s
-  match r with
-  | .exc e => handleDisconnect c s e rc
-  | .halt => (s, .halt)
-  | .ok () =>
-    let s := if c.iv ≠ 0 then startPing c s else s
-    let cb := if rc && c.has .onReconnect then Cb.onReconnect else Cb.onOpen
-    match callback c s cb [] with
-    | (s, .exc e) => handleDisconnect c s e rc
-    | (s, .halt) => (s, .halt)
-    | (s, .ok ()) =>
-      match s.sock with
-      | none => handleDisconnect c s .attrError rc       -- `self.sock.sock` after close() in on_open (F13)
-      | some _ =>
-        match dispLoop c c.fuel s with
-        | (s, .exc e) => handleDisconnect c s e rc
-        | r => r
+/-- `if reconnecting and self.sock: self.sock.shutdown()` -/
+def release (s : St) (rc : Bool) : St :=
+  if rc then (match s.sock with | some _ => closeTransport s | none => s) else s
+
+/-- the opening callback: on_reconnect for a re-established connection when it is set, else on_open -/
+def openCb (c : Cfg) (rc : Bool) : Cb := if rc && c.has .onReconnect then .onReconnect else .onOpen
+
+/-- `except … as e: handleDisconnect(e, reconnecting)` around the dispatcher loop -/
+def afterLoop (c : Cfg) (rc : Bool) (x : St × R Unit) : St × R Unit :=
+  match x with
+  | (s, .exc e) => handleDisconnect c s e rc
+  | r => r
+
+/-- after the opening callback: `dispatcher.read(self.sock.sock, read, check)` -/
+def afterOpen (c : Cfg) (rc : Bool) (x : St × R Unit) : St × R Unit :=
+  match x with
+  | (s, .exc e) => handleDisconnect c s e rc
+  | (s, .halt) => (s, .halt)
+  | (s, .ok ()) =>
+    match s.sock with
+    | none => handleDisconnect c s .attrError rc       -- `self.sock.sock` after close() in on_open (F13)
+    | some _ => afterLoop c rc (dispLoop c c.fuel s)
+
+/-- after `self.sock.connect(...)`: ping thread, opening callback -/
+def afterConnect (c : Cfg) (rc : Bool) (x : St × R Unit) : St × R Unit :=
+  match x with
+  | (s, .exc e) => handleDisconnect c s e rc
+  | (s, .halt) => (s, .halt)
+  | (s, .ok ()) => afterOpen c rc (callback c (if c.iv ≠ 0 then startPing c s else s) (openCb c rc) [])
+
+def setSock (c : Cfg) (s : St) (rc : Bool) : St × R Unit := afterConnect c rc (connect (release s rc))
+
+/-- after `reconnector(reconnecting=True)` returned: the next round `k` of the reconnect loop -/
+def rlNext (k : St → St × R Unit) (x : St × R Unit) : St × R Unit :=
+  match x with
+  | (s, .ok ()) => k s
+  | r => r
 
 /-- the reconnect loop of run_forever: `while self.keep_running: sleep(reconnect); setSock(True)` -/
 def reconnectLoop (c : Cfg) : Nat → St → St × R Unit
@@ -535,10 +552,7 @@ def reconnectLoop (c : Cfg) : Nat → St → St × R Unit
     if !s.keepRunning then (s, .ok ()) else
     let s := s.emit (.sleep c.reconnect)
     let (s, ok) := waitUntil c s (s.now + c.reconnect)
-    if !ok then (s, .halt) else
-    match setSock c s true with
-    | (s, .ok ()) => reconnectLoop c n s
-    | r => r
+    if !ok then (s, .halt) else rlNext (reconnectLoop c n) (setSock c s true)
 
 /-- the argument validation of run_forever (before anything is touched) -/
 def argsAccepted (iv : Int) (to : Option Int) : Bool :=
